@@ -207,7 +207,7 @@ pub fn boundary_message(r: &mut Rng, storage: Option<bool>) -> Message {
     let std = 4 + 4 * (ecu.is_some() as usize + sid.is_some() as usize + tms.is_some() as usize);
     let plain = |k: TypeInfoKind, v: Value| Argument { type_info: TypeInfo { kind: k, coding: StringCoding::UTF8, has_variable_info: false, has_trace_info: false }, name: None, unit: None, fixed_point: None, value: v };
     let room = 65535 - std - 10; // payload bytes available with an extended header
-    let shape = r.below(8);
+    let shape = r.below(11);
     let (payload, mt, ext): (PayloadContent, MessageType, bool) = match shape {
         0 => { let slack = *r.pick(&[0usize, 1, 2, 7]); (PayloadContent::Verbose(vec![plain(TypeInfoKind::Raw, Value::Raw(r.bytes(room - 6 - slack)))]), MessageType::Log(LogLevel::Info), true) }
         1 => { let slack = *r.pick(&[0usize, 1, 3]); (PayloadContent::Verbose(vec![plain(TypeInfoKind::StringType, Value::StringVal("x".repeat(room - 7 - slack)))]), MessageType::Log(LogLevel::Debug), true) }
@@ -215,6 +215,19 @@ pub fn boundary_message(r: &mut Rng, storage: Option<bool>) -> Message {
         3 => (PayloadContent::NetworkTrace((0..255).map(|i| vec![i as u8; (i % 3) as usize]).collect()), MessageType::NetworkTrace(NetworkTraceType::Ethernet), true),
         4 => { let n = *r.pick(&[32766usize, 32767, 32768, 32769]); (PayloadContent::Verbose(vec![plain(TypeInfoKind::StringType, Value::StringVal("é".repeat(n / 2))), plain(TypeInfoKind::Raw, Value::Raw(r.bytes(n - 10000)))]), MessageType::Log(LogLevel::Warn), true) }
         5 => { let slack = *r.pick(&[0usize, 1]); (PayloadContent::NonVerbose(r.next() as u32, r.bytes(65535 - std - 4 - slack)), MessageType::Log(LogLevel::Info), false) }
+        8 => { let mut a = plain(TypeInfoKind::Float(FloatWidth::Width64), Value::F64(-0.0)); a.type_info.has_variable_info = true; a.name = Some("t".into()); a.unit = Some("u".repeat(*r.pick(&[32766usize, 32767, 32768, 40000])));
+               (PayloadContent::Verbose(vec![a]), MessageType::Log(LogLevel::Info), true) }
+        9 | 10 => {
+            // a message whose own first four bytes spell a storage-header ("DLT\x01") or serial-header ("DLS\x01") pattern:
+            // HTYP 0x44 (version 2, little endian, ECU id), MCNT 0x4C, LEN 0x5401 / 0x5301; no extended header
+            let len = if shape == 9 { 0x5401usize } else { 0x5301 };
+            return Message {
+                storage_header: if storage.unwrap_or(false) { Some(StorageHeader { timestamp: DltTimeStamp { seconds: 1, microseconds: 2 }, ecu_id: id(r) }) } else { None },
+                header: StandardHeader { version: 2, endianness: Endianness::Little, has_extended_header: false, message_counter: 0x4C, ecu_id: Some(id(r)), session_id: None, timestamp: None, payload_length: (len - 8) as u16 },
+                extended_header: None,
+                payload: PayloadContent::NonVerbose(r.next() as u32, r.bytes(len - 8 - 4)),
+            };
+        }
         6 => { let mut a = plain(TypeInfoKind::Unsigned(TypeLength::BitLength128), Value::U128(u128::MAX - 5)); a.type_info.has_variable_info = true; a.name = Some("n".repeat(*r.pick(&[254usize, 255, 256, 32767]))); a.unit = Some(String::new());
                (PayloadContent::Verbose(vec![a]), MessageType::Log(LogLevel::Verbose), true) }
         _ => { let slack = *r.pick(&[0usize, 1, 100]); (PayloadContent::ControlMsg(ControlType::Response, r.bytes(room - 1 - slack)), MessageType::Control(ControlType::Response), true) }
